@@ -61,6 +61,8 @@ pub struct StepObs {
     pub dispatches: u64,
     pub allocs: u64,
     pub panicked: bool,
+    /// "nontermination:<site>" (bounded probe loop gave up) or "panic at <site>"
+    pub panic_how: String,
     /// value-stack height when the run returned
     pub end_height: usize,
     /// call-stack depth when the run returned minus the depth when it started
@@ -168,7 +170,92 @@ fn gen_early_exit(rng: &mut Rng) -> Module {
     m
 }
 
+/// Three programs sharing a global table that survives from run to run while the VM is not
+/// cleared: [0] creates it, [1] adds `n` new keys (running into the memory limit sooner or later),
+/// [2] looks up keys that are not in it.
+fn gen_persist_programs(rng: &mut Rng) -> Vec<Module> {
+    let one = |cards: Vec<Card>| {
+        let mut m = Module::default();
+        m.functions.push(("main".into(), Function::default().with_cards(cards)));
+        m
+    };
+    // globals are slots numbered in order of first appearance in each program: every program
+    // starts by naming the two shared ones in the same order
+    let same_ids = [
+        Card::set_global_var("persist", Card::read_var("persist")),
+        Card::set_global_var("persist_ctr", Card::read_var("persist_ctr")),
+    ];
+    let n = 3 + rng.range(0, 40);
+    let payload_strings = rng.chance(1, 4);
+    // every insert uses a key that was never used before, also after a failed run: the counter is
+    // advanced before the insert
+    let key = if rng.chance(1, 3) {
+        c(CardBody::Div(bin(Card::read_var("persist_ctr"), Card::scalar_int(2))))
+    } else {
+        c(CardBody::Add(bin(c(CardBody::Mul(bin(Card::read_var("persist_ctr"), Card::scalar_int(3)))), Card::scalar_int(1))))
+    };
+    vec![
+        one(vec![
+            Card::set_global_var("persist", c(CardBody::CreateTable)),
+            Card::set_global_var("persist_ctr", Card::scalar_int(0)),
+        ]),
+        one(vec![
+            same_ids[0].clone(),
+            same_ids[1].clone(),
+            c(CardBody::Repeat(Box::new(cao_lang::compiler::Repeat {
+            i: None,
+            n: Card::scalar_int(n),
+            body: Card::composite_card(
+                "body",
+                vec![
+                    Card::set_global_var("persist_ctr", c(CardBody::Add(bin(Card::read_var("persist_ctr"), Card::scalar_int(1))))),
+                    // mostly values that need no allocation: then the growth of the table is the
+                    // allocation that meets the limit
+                    Card::set_property(
+                        if payload_strings { Card::string_card("persistent payload") } else { Card::read_var("persist_ctr") },
+                        Card::read_var("persist"),
+                        key,
+                    ),
+                ],
+            ),
+        })))]),
+        one(vec![
+            same_ids[0].clone(),
+            same_ids[1].clone(),
+            Card::set_global_var("absent_a", c(CardBody::GetProperty(bin(Card::read_var("persist"), Card::scalar_int(1_000_003))))),
+            Card::set_global_var("absent_b", c(CardBody::GetProperty(bin(Card::read_var("persist"), Card::string_card("no such key"))))),
+            Card::set_global_var("persist_len", c(CardBody::Len(cao_lang::compiler::UnaryExpression { card: Box::new(Card::read_var("persist")) }))),
+        ]),
+    ]
+}
+
+/// data that persists across runs without clear, under a tight memory limit
+pub fn gen_persist_history(rng: &mut Rng) -> History {
+    let programs = gen_persist_programs(rng);
+    let mut steps = vec![Step { program: 0, fault: Fault::None, clear_after: false }];
+    for _ in 0..(4 + rng.usize(16)) {
+        let fault = match rng.below(8) {
+            0 => Fault::Budget(1 + rng.below(300)),
+            1 => Fault::FailAlloc(rng.below(12)),
+            _ => Fault::None,
+        };
+        steps.push(Step { program: if rng.chance(3, 4) { 1 } else { 2 }, fault, clear_after: false });
+    }
+    steps.push(Step { program: 2, fault: Fault::None, clear_after: true });
+    History {
+        // from "the empty table barely fits" to "a few growths fit"
+        mem_limit: 400 + rng.usize(4000),
+        value_stack: 256,
+        call_stack: 256,
+        programs,
+        steps,
+    }
+}
+
 fn gen_history(rng: &mut Rng, tier: Tier, endurance: bool) -> History {
+    if !endurance && rng.chance(1, 8) {
+        return gen_persist_history(rng);
+    }
     let mut programs = vec![];
     let np = if endurance { 1 } else { 1 + rng.usize(3) };
     for _ in 0..np {
@@ -224,13 +311,13 @@ fn gen_history(rng: &mut Rng, tier: Tier, endurance: bool) -> History {
     }
 }
 
-struct Machine {
+pub struct Machine {
     ctl: VmCtl,
     vm: Option<Vm<'static, crate::ctl::vmrun::Host>>,
 }
 
 impl Machine {
-    fn new(h: &History) -> Option<Machine> {
+    pub fn new(h: &History) -> Option<Machine> {
         let ctl = VmCtl::new(CtlConfig { gc: GcPlan::Natural, ..Default::default() });
         ctl.install();
         let knobs = Knobs { budget: BIG_BUDGET, mem_limit: h.mem_limit, value_stack: h.value_stack, call_stack: h.call_stack };
@@ -239,7 +326,7 @@ impl Machine {
     }
 
     /// run one step; returns its observation and the raw RunOut (for findings)
-    fn step(&mut self, p: &CaoCompiledProgram, fault: &Fault) -> (StepObs, RunOut) {
+    pub fn step(&mut self, p: &CaoCompiledProgram, fault: &Fault) -> (StepObs, RunOut) {
         let vm = self.vm.as_mut().unwrap();
         let c0 = self.ctl.counters();
         // per-step fault placement (indices are relative to the step)
@@ -275,6 +362,11 @@ impl Machine {
             dispatches: c1.dispatches - c0.dispatches,
             allocs: c1.allocs - c0.allocs,
             panicked: out.panic.is_some(),
+            panic_how: match &out.panic {
+                Some(p) if p.msg.starts_with("nontermination:") => p.msg.clone(),
+                Some(p) => format!("panic at {}", panic_site(p)),
+                None => String::new(),
+            },
             end_height,
             leaked_frames,
         };
@@ -320,7 +412,7 @@ impl Machine {
         v
     }
 
-    fn finish(mut self) {
+    pub fn finish(mut self) {
         if let Some(vm) = self.vm.take() {
             let mut out = crate::ctl::vmrun::empty_out();
             teardown(vm, &self.ctl, &mut out);
@@ -473,6 +565,20 @@ fn run_history(h: &History, ctx: Option<&mut CaseCtx>) -> Vec<(Json, String, usi
             fresh_cache.insert(key.clone(), fo);
         }
         let fresh = &fresh_cache[&key];
+        // whatever the earlier runs left behind, it must not make a run panic or spin (the probe
+        // loops of the containers are bounded by a hook that panics) when the same run on a fresh
+        // VM does neither
+        if obs.panicked && !fresh.panicked {
+            let sig = json!({"inv": "earlier-runs-make-a-run-panic-or-hang", "how": obs.panic_how.clone()});
+            if !found.iter().any(|(s, _, _)| s == &sig) {
+                found.push((
+                    sig,
+                    format!("step {i} (VM {} since the previous run): {}; on a fresh VM the same run ends with {}", if *was_cleared { "cleared" } else { "not cleared" }, obs.panic_how, fresh.result),
+                    *i,
+                ));
+            }
+            continue;
+        }
         if *was_cleared {
             if let Some((comp, d)) = first_diff(fresh, obs, true) {
                 let sig = json!({"inv": "cleared-vm-differs-from-fresh", "component": comp});
@@ -615,6 +721,15 @@ impl Check for C17 {
         }
         if endurance {
             ctx.count("endurance_histories", 1);
+        }
+        if h.programs.len() == 3 && h.steps.last().map(|s| s.program == 2 && s.clear_after).unwrap_or(false) && h.value_stack == 256 {
+            ctx.count("persistent_table_histories", 1);
+        }
+        if let Some(dir) = std::env::var_os("CAOSIM_DUMP") {
+            let _ = std::fs::write(
+                std::path::Path::new(&dir).join(format!("C17-{}.json", ctx.case)),
+                serde_json::to_string(&json!({"history": hv, "steps": h.steps.len()})).unwrap(),
+            );
         }
         ctx.progress("run history");
         let found = run_history(&h, Some(ctx));
